@@ -139,7 +139,9 @@ CHECKS = {
               "history of initialise / compress / decompress / metadata / caller-free / finalise operations the library owns at most its three "
               "parameter blocks (no per-call growth), and once the caller has freed what it was given and finalised nothing is live -- proved by "
               "induction without axioms. The ledger model is tied to the code by running generated valid call sequences with malloc/calloc/realloc/free "
-              "wrapped at link time: the library-owned block count after every operation must equal the model's, the final ledger must be empty. The "
+              "wrapped at link time: the library-owned block count after every operation must equal the model's, the final ledger must be empty. One access-safety "
+              "fact is proved too: the raw-copy fall-back of the float/double compressors writes its record in place, and behind the guard every call site has (read "
+              "from the source on every run: compared with exactly the record size, or a malloc of it) that write stays inside the block; the guard comparing with the raw data alone is refuted. The "
               "access-safety half (out-of-bounds, use-after-free, double free, reads outside the caller's array) is decided by AddressSanitizer on the "
               "same sequences plus stress shapes (tiny, block-misaligned, everything-unpredictable, sampling distance 1): that half is exploration."),
         note=TB_COMMON + "Memory safety of C code is not derived by proof here: no C semantics is available in this toolbox (VST/CompCert absent); the ASan replay is labelled exploration. zlib/zstd internal allocations are outside the ledger.",
